@@ -9,6 +9,7 @@ import (
 	"path/filepath"
 	"sync"
 	"testing"
+	"time"
 
 	"github.com/ethereum/go-ethereum/common"
 	"github.com/gauss-project/aurorafs/pkg/boson"
@@ -655,11 +656,51 @@ func TestC30_Store(t *testing.T) {
 
 type conc struct {
 	Level  string `json:"level"`
-	Amts   []int  `json:"amounts"` // cumulative payouts of issuer 0's cheques (duplicates = replays)
-	Copies int    `json:"copies"`  // how often each cheque is delivered
+	Amts   []int  `json:"amounts"`        // cumulative payouts of issuer 0's cheques (duplicates = replays)
+	Copies int    `json:"copies"`         // how often each cheque is delivered
+	Slow   []int  `json:"slow,omitempty"` // amounts whose acceptance by the store returns late (service level)
+}
+
+// slowStore delays the *return* of ReceiveCheque for chosen cumulative amounts until another
+// ReceiveCheque call has completed after it (or a short cap): a harness-owned schedule for the
+// window between the store's acceptance of a cheque and the service's own bookkeeping.
+type slowStore struct {
+	chequePkg.ChequeStore
+	mu   sync.Mutex
+	cond *sync.Cond
+	done int
+	slow map[int64]bool
+}
+
+func (w *slowStore) ReceiveCheque(ctx context.Context, ch *chequePkg.SignedCheque) (*big.Int, error) {
+	amt, err := w.ChequeStore.ReceiveCheque(ctx, ch)
+	w.mu.Lock()
+	w.done++
+	mine := w.done
+	w.cond.Broadcast()
+	if err == nil && ch != nil && ch.CumulativePayout != nil && w.slow[ch.CumulativePayout.Int64()] {
+		timer := time.AfterFunc(150*time.Millisecond, func() { w.mu.Lock(); w.done += 1000; w.cond.Broadcast(); w.mu.Unlock() })
+		for w.done == mine {
+			w.cond.Wait()
+		}
+		timer.Stop()
+	}
+	w.mu.Unlock()
+	return amt, err
 }
 
 func runConc(c conc) (string, error) {
+	if c.Level == "service" && len(c.Slow) > 0 {
+		trafx.WrapChequeStore = func(in chequePkg.ChequeStore) chequePkg.ChequeStore {
+			w := &slowStore{ChequeStore: in, slow: map[int64]bool{}}
+			w.cond = sync.NewCond(&w.mu)
+			for _, a := range c.Slow {
+				w.slow[int64(a)] = true
+			}
+			return w
+		}
+		defer func() { trafx.WrapChequeStore = nil }()
+	}
 	s, closeFn, err := newSUT()
 	if err != nil {
 		return "C30/harness", err
@@ -747,6 +788,10 @@ func concurrentBody(t *testing.T, checks int) {
 		c := conc{Level: rapid.SampledFrom([]string{"store", "service"}).Draw(t, "level"),
 			Amts:   rapid.SliceOfN(rapid.IntRange(0, 12), 1, 5).Draw(t, "amts"),
 			Copies: rapid.IntRange(1, 3).Draw(t, "copies")}
+		if c.Level == "service" && rapid.Bool().Draw(t, "slow_store_returns") {
+			// delay the store's return for some of the amounts (harness-owned interleaving)
+			c.Slow = rapid.SliceOfNDistinct(rapid.SampledFrom(c.Amts), 1, len(c.Amts), func(a int) int { return a }).Draw(t, "slow")
+		}
 		if sig, err := runConc(c); err != nil {
 			if d := os.Getenv("VERIF_REPLAY_OUT"); d != "" {
 				b, _ := json.Marshal(c)
